@@ -399,13 +399,16 @@ func Analyze(o *Obs, p *pgen.Program) (*pgen.Model, *Report) {
 			for k := range e.Written {
 				w := &e.Written[k]
 				if w.Kind == "out" {
-					writtenBy[vrun.StripUniq(w.Path)] = w
+					// keyed by the name relative to the pipestance: a stage may name its
+					// own file by its physical path when the pipestance is reached through
+					// a symlink
+					writtenBy[o.Case.Canon(w.Path)] = w
 				}
 			}
 		}
 		if e.Ev == "start" {
 			for _, fc := range e.FChecks {
-				w := writtenBy[vrun.StripUniq(fc.Path)]
+				w := writtenBy[o.Case.Canon(fc.Path)]
 				if w == nil {
 					continue
 				}
